@@ -787,7 +787,7 @@ FAMILIES = [
     Family("double", evaluate, enumerate=enum_double, shards_quick=2, shards_thorough=12,
            required_labels=["preempted-in-window=config-context"]),
     Family("cold", eval_cold, enumerate=enum_cold, shards_quick=16, shards_thorough=16),
-    Family("multi", evaluate, strategy=strat_multi, n_quick=110, n_thorough=1000, shards_quick=4, shards_thorough=16,
+    Family("multi", evaluate, strategy=strat_multi, n_quick=220, n_thorough=1000, shards_quick=4, shards_thorough=16,
            required_labels=["expect=independent", "class=pd-shared-noop", "class=pd-distinct"]),
 ]
 
